@@ -432,7 +432,9 @@ var c07Ops = []corruption{
 		take := func(x map[string]any, keys ...string) {
 			for _, k := range keys {
 				k := k
-				if sv, ok := x[k].(string); ok && strings.HasPrefix(sv, "0x") && len(sv) >= 42 {
+				// (only values that are still well-formed: a second corruption of the same string could
+				// make it well-formed again at another length, which is no longer "not hex")
+				if sv, ok := x[k].(string); ok && strings.HasPrefix(sv, "0x") && len(sv) >= 42 && isHexStr(sv) {
 					strs = append(strs, func(nv string) { x[k] = nv })
 					vals = append(vals, sv)
 				}
